@@ -30,6 +30,27 @@ def depthOk (G : Grid) (elev : Array Int) (nod : Array Bool) (md : Int) (f : Arr
     if nod[c]! then f[c]! == elev[c]! && d8[c]! == 247
     else d8[c]! != 247 && decide (elev[c]! ≤ f[c]!) && (f[c]! == elev[c]! || decide (f[c]! - elev[c]! < md))
 
+/-- the outlets and the cells that had their too-deep event keep their input elevation
+(`fillModelDepth_deep_cells_keep` in `Props/C06.lean`); `seed` is the declarative outlet set -/
+def keepOk (G : Grid) (elev : Array Int) (seed : Array Bool) (evc : Array Nat) (f : Array Int) : Bool :=
+  (List.range G.n).all fun c => !(seed[c]! || decide (1 ≤ evc[c]!)) || f[c]! == elev[c]!
+
+/-- every non-zero direction at a valid cell decodes to an allowed valid neighbour
+(`fillModelDepth_step_allowed`) -/
+def stepOk (G : Grid) (conn : Nat) (nod : Array Bool) (d8 : Array Nat) : Bool :=
+  (List.range G.n).all fun c => nod[c]! || d8[c]! == 0 || decide (Nbr G conn nod c (dsOf G d8 c))
+
+/-- cells that end as a pit (code 0) although they are neither an outlet nor a too-deep cell and are
+visibly part of the flooded area (raised, or some neighbour drains into them): the popped cell that was
+re-opened by a too-deep neighbour met EARLIER in the neighbour loop and then visited itself at offset
+(0, 0) (reported finding; counted, not judged) -/
+def spuriousPits (G : Grid) (conn : Nat) (elev : Array Int) (nod seed : Array Bool) (evc : Array Nat)
+    (f : Array Int) (d8 : Array Nat) : Nat :=
+  ((List.range G.n).filter fun c =>
+    !nod[c]! && d8[c]! == 0 && !seed[c]! && evc[c]! == 0 &&
+      (f[c]! != elev[c]! ||
+        (List.range G.n).any fun b => b != c && !nod[b]! && dsOf G d8 b == c && decide (Adj G conn b c))).length
+
 /-- walk `ds` from `c`: every step is an allowed move between valid cells along which `f` does not
 rise, and the walk ends (within `fuel` steps) at a fixed point that is a seed -/
 def walkOk (G : Grid) (conn : Nat) (nod seed : Array Bool) (f : Array Int) (ds : Array Nat) :
@@ -76,8 +97,12 @@ def opsC06 : List (String × Op) := [
       | .ok (f, d8, fin, ev, evc) =>
         if !fin then throw "fuel"
         let evmax := evc.foldl max 0
+        let seedS := specSeeds G conn elev nod pits minMode elvMax
         let mut out : Out := [("model.f", f), ("model.d8", ofNats d8), ("model.ev", #[(ev : Int)]),
-          ("model.evmax", #[(evmax : Int)]), ("spec.depth_model", ofBool (depthOk G elev nod md f d8))]
+          ("model.evmax", #[(evmax : Int)]), ("spec.depth_model", ofBool (depthOk G elev nod md f d8)),
+          ("spec.keep_model", ofBool (keepOk G elev seedS evc f)),
+          ("spec.step_model", ofBool (stepOk G conn nod d8)),
+          ("model.spurious_pits", #[((spuriousPits G conn elev nod seedS evc f d8 : Nat) : Int)])]
         -- when no too-deep event happened the run must be the unlimited fill
         if ev == 0 then
           match fillModelE G conn elev nod pits minMode elvMax with
@@ -87,7 +112,9 @@ def opsC06 : List (String × Op) := [
         | some fi, some di =>
           let di := di.map Int.toNat
           if fi.size ≠ G.n ∨ di.size ≠ G.n then throw "shape"
-          out := out ++ [("spec.depth_impl", ofBool (depthOk G elev nod md fi di))]
+          out := out ++ [("spec.depth_impl", ofBool (depthOk G elev nod md fi di)),
+                         ("spec.keep_impl", ofBool (keepOk G elev seedS evc fi)),
+                         ("spec.step_impl", ofBool (stepOk G conn nod di))]
         | _, _ => pure ()
         pure out
     | none =>
